@@ -45,4 +45,13 @@ package frugal
 //@   ensures c02_inplace: slen($wire) <= len(buf) ==> forall i Int :: {at($wire, i)} 0 <= i && i < n ==> M[buf.ptr + i] == at($wire, i)
 //@   ensures c16_tail: slen($wire) <= len(buf) ==> forall a Int :: {M[a]} buf.ptr + n <= a && a < buf.ptr + cap(buf) ==> M[a] == old(M[a])
 //@   ensures c16_value: forall a Int :: {M[a]} a < old($brk) && (a < buf.ptr || buf.ptr + len(buf) <= a) ==> M[a] == old(M[a])
+//@   ensures c04_size: $encerr == nil ==> slen($wire) == SZS(sdFor(rvOf(val)), old(M), $encp)
 //@   ensures c02_wire: $encerr == nil ==> $wire == WS(sdFor(rvOf(val)), old(M), $encp, $win) && slen($win) == 0
+
+// EncodedSize: exactly the length EncodeObject produces for the same value and memory (SZS is the
+// length every writer is proved to append, c04_len).
+//@ func EncodedSize(val any) (n int)
+//@   modifies $brk, $encp, $szerr
+//@   panics when true
+//@   ensures c04_top: n == SZS(sdFor(rvOf(val)), M, $encp)
+//@   ensures c16_value: forall a Int :: {M[a]} a < old($brk) ==> M[a] == old(M[a])
